@@ -45,7 +45,8 @@ TECHNIQUE = ("exhaustive evaluation of the bilinear map on a complete basis (all
              "ill-conditioned past reference data (three families x conditioning levels) against the projection "
              "evaluated in exact rational arithmetic; SSIResult.H after real runs of two algorithm objects that received ONE "
              "run-parameter object (five ways of sharing / handing on x ordered class pairs x requested method x every ordered "
-             "reference list)")
+             "reference list); every matrix is copied at the moment it is read (two results alive at once) and on every data-driven "
+             "lattice point the matrix returned by an earlier call is compared with itself after a later call on other records of the same shape")
 LEVEL_TEXT = ("bounded-exhaustive: inside the stated shape range the covariance-method map is decided completely (a "
               "bilinear map is fixed by its values on a basis, and bilinearity is checked exhaustively on the smallest "
               "shapes); outside it, and for the data-driven method, a finite lattice around a payload alphabet, "
@@ -65,6 +66,9 @@ RULE = ("basis part: one case = (channels l, references r, block rows br, record
         "part: one case = (lattice point, first / second algorithm of the pair)")
 ASSUMPTIONS = [
     "numpy dot/solve/cond are the reference operations (trusted)",
+    "observed matrices (SSIResult.H, return values) and reference matrices are copied at the moment they are read, so that a later call into the "
+    "library (including the oracle's own reference calls) cannot rewrite what was observed; a matrix returned by build_hank belongs to the caller: "
+    "a later call on other records must leave it unchanged and must not share its memory",
     "the sign of the lag, the averaging window and the normalisation are not fixed by the statement: any consistent "
     "sign, any window and any positive per-lag weight that is an average (see module docstring) are accepted",
     "bilinearity is checked on basis pair sums and scalings only; this is exact for maps polynomial of degree <= 2 "
